@@ -337,6 +337,20 @@ pub fn generate(project: &Project, seed: u64, max_len: usize, check_every_step: 
     if enabled.len() < 3 {
         enabled = edits::EDIT_KINDS.to_vec();
     }
+    // Experiments: restrict the edit kinds (never set by the registered checks).
+    if let Ok(only) = std::env::var("VERIF_C13_ONLY_KINDS") {
+        let v: Vec<&'static str> = edits::EDIT_KINDS.iter().copied().filter(|k| only.split(',').any(|o| o == *k)).collect();
+        if !v.is_empty() {
+            enabled = v;
+        }
+    }
+    // Re-ordering edits (members, variants, statements, items) get double weight: they are the
+    // only edits that keep every piece of text and change nothing but an order.
+    for k in ["swap_adjacent_lines", "swap_adjacent_items", "shift_space_in_line"] {
+        if enabled.contains(&k) {
+            enabled.push(k);
+        }
+    }
     let len = 3 + rng.below(max_len.saturating_sub(2).max(1));
     let p_query = 10 + rng.below(50) as u32;
     let p_check = if check_every_step { 100 } else { 30 + rng.below(60) as u32 };
